@@ -167,3 +167,41 @@ func RandomCost(r *Rng, n, maxW int, neg, unit bool) (lits []int, weights []int)
 	}
 	return lits, weights
 }
+
+// RandomObjectiveProblem draws a PB problem with a full-length objective (every variable, mostly positive
+// literals, weights 1..6) so that optimisation needs several improvement steps.
+func RandomObjectiveProblem(r *Rng, minVars, maxVars int) *ref.Problem {
+	p := RandomPBProblem(r, PBOpts{MinVars: minVars, MaxVars: maxVars, MaxW: r.Range(1, 4), NegCoefs: r.Bool(), MaxCons: 6, Hard: r.Chance(1, 2)})
+	if mv := p.MaxVar(); mv > p.N {
+		p.N = mv
+	}
+	n := p.N
+	p.HasCost = true
+	p.CostLits = make([]int, n)
+	p.CostW = make([]int, n)
+	for v := 1; v <= n; v++ {
+		p.CostLits[v-1] = v
+		if r.Chance(1, 4) {
+			p.CostLits[v-1] = -v
+		}
+		p.CostW[v-1] = r.Range(1, 6)
+	}
+	return p
+}
+
+// RandomSoftClauseProblem draws a problem shaped like a relaxed MaxSAT instance: nbSoft clauses, each with its own
+// relaxation variable, a few hard clauses, and the objective "sum of weighted relaxation variables".
+func RandomSoftClauseProblem(r *Rng, nbVars, nbSoft int) *ref.Problem {
+	p := &ref.Problem{N: nbVars + nbSoft, HasCost: true}
+	for k := r.Intn(4); k > 0; k-- {
+		p.Cons = append(p.Cons, ref.Cl(r.DistinctLits(nbVars, r.Range(2, 3))...))
+	}
+	for i := 0; i < nbSoft; i++ {
+		lits := r.DistinctLits(nbVars, r.Range(1, 3))
+		relax := nbVars + i + 1
+		p.Cons = append(p.Cons, ref.Cl(append(lits, relax)...))
+		p.CostLits = append(p.CostLits, relax)
+		p.CostW = append(p.CostW, r.Range(1, 5))
+	}
+	return p
+}
